@@ -206,7 +206,9 @@ def run_pure(ctx, templates, nvals, tag="pure", extra=None):
 
 # ====================================================================== end to end
 FIELD_PATHS = ["name", "parent", "table_name", "app_profile_id", "resource", "class", "type", "sub.name", "sub.class", "sub.type",
-               "sub.inner.id", "sub.inner.class"]
+               "sub.inner.id", "sub.inner.class",
+               # digits in the leading, the last and a nested component of the field path
+               "oauth2_client_id", "name_v2", "sub.isbn13", "v2.name", "v2.inner.ipv4_range", "sub.inner.ipv4_range"]
 
 
 def snake(s):
@@ -218,15 +220,16 @@ def build_api(r, methods):
     f = File("google/example/library/v1/library.proto", "google.example.library.v1",
              deps=list(apigen.STD_DEPS) + ["google/api/routing.proto"])
     inner = f.message("Inner")
-    inner.field("id", 1, "string").field("class", 2, "string")
+    inner.field("id", 1, "string").field("class", 2, "string").field("ipv4_range", 3, "string")
     sub = f.message("Sub")
-    sub.field("name", 1, "string").field("class", 2, "string").field("type", 3, "string").field("inner", 4, inner.fqn)
+    sub.field("name", 1, "string").field("class", 2, "string").field("type", 3, "string").field("inner", 4, inner.fqn).field("isbn13", 5, "string")
     req = f.message("RouteRequest")
     for i, n in enumerate(["name", "parent", "table_name", "app_profile_id", "resource", "class", "type"], 1):
         req.field(n, i, "string")
     req.field("sub", 8, sub.fqn)
     req.field("payload", 9, "string")
     req.field("page_size", 10, "int32").field("page_token", 11, "string")
+    req.field("oauth2_client_id", 12, "string").field("name_v2", 13, "string").field("v2", 14, sub.fqn)
     resp = f.message("RouteResponse")
     resp.field("ok", 1, "string")
     lresp = f.message("ListRoutesResponse")       # with page_size/page_token in the request: a paginated method
@@ -849,6 +852,12 @@ def corpus_methods():
         {"name": "RouteM", "kind": "explicit", "params": [("table_name", "{routing_id=projects/*}/**"), ("table_name", "{routing_id=projects/*/instances/*}/**"),
                                                           ("table_name", "{routing_id=projects/*}/**")],
          "http": ("post", "/v1/m:relisted"), "body": "*", "requests": [{"table_name": "projects/p1/instances/i1/tables/t1"}, {"table_name": "projects/p1"}]},
+        {"name": "RouteN", "kind": "implicit", "params": [], "http": ("get", "/v1/{parent=projects/*}/clients/{oauth2_client_id}"), "body": None,
+         "vars": ["parent", "oauth2_client_id"], "requests": [{"parent": "projects/p1", "oauth2_client_id": "c-1"}]},
+        {"name": "RouteO", "kind": "implicit", "params": [], "http": ("post", "/v1/{v2.name=shelves/*}/x/{sub.isbn13}/{sub.inner.ipv4_range=**}"), "body": "*",
+         "vars": ["v2.name", "sub.isbn13", "sub.inner.ipv4_range"], "requests": [{"v2.name": "shelves/s1", "sub.isbn13": "978", "sub.inner.ipv4_range": "10.0.0.0/8"}]},
+        {"name": "RouteP", "kind": "explicit", "params": [("name_v2", "{k2=*}"), ("v2.inner.ipv4_range", None)], "http": ("post", "/v1/p:route"), "body": "*",
+         "requests": [{"name_v2": "n", "v2.inner.ipv4_range": "10.0.0.0/8"}]},
         {"name": "RouteI", "kind": "implicit", "params": [], "http": ("custom", "/v1/{name=things/*}"), "body": None, "vars": ["name"]},
         {"name": "RouteJ", "kind": "implicit", "params": [], "http": ("custom", "/v1/{sub.name=shelves/*}/x/{sub.class}"), "body": None,
          "vars": ["sub.name", "sub.class"], "custom_kind": "OPTIONS"},
